@@ -252,7 +252,9 @@ pub fn build_cert(pki: &Pki, p: &CertParams, router: &(Name, PublicKey)) -> Vec<
     if p.kind == "router" {
         tbs.set_extended_key_usage(Some(ExtendedKeyUsage::create_router()));
     }
-    if p.aki != "none" {
+    if p.aki == "long" {
+        tbs.set_authority_key_identifier(Some(pki.pubkey(&p.sig_key).key_identifier()));
+    } else if p.aki != "none" {
         tbs.set_authority_key_identifier(Some(pki.pubkey(&p.aki).key_identifier()));
     }
     match &p.raw {
@@ -271,11 +273,25 @@ pub fn build_cert(pki: &Pki, p: &CertParams, router: &(Name, PublicKey)) -> Vec<
     let cert = tbs.into_cert(&pki.signer, &pki.key(&p.sig_key)).unwrap();
     let mut der = cert.to_captured().into_bytes().to_vec();
     if !p.ski_ok {
-        // patch the SKI inside the TBS and sign the patched TBS again with the same key
+        // patch the SKI inside the TBS and sign the patched TBS again with the same key: one bit wrong, or (every other case) the
+        // right twenty octets followed by one more
+        let long = (p.nb + p.na + p.serial as i64) % 2 == 1;
         der = resign_with(&der, pki, &p.sig_key, |tbs| {
             let pat = ski.as_slice();
-            let pos = tbs.windows(20).position(|w| w == pat).expect("SKI in TBS");
-            tbs[pos + 19] ^= 0x01;
+            if long {
+                *tbs = lengthen_octets(tbs, pat).expect("SKI in TBS");
+            } else {
+                let pos = tbs.windows(20).position(|w| w == pat).expect("SKI in TBS");
+                tbs[pos + 19] ^= 0x01;
+            }
+        });
+    }
+    if p.aki == "long" {
+        // the issuer's identifier followed by one more octet (re-signed)
+        let id = pki.pubkey(&p.sig_key).key_identifier();
+        der = resign_with(&der, pki, &p.sig_key, |tbs| {
+            // the AKI is the second occurrence when issuer and subject key are the same (trust anchors), otherwise the only one
+            *tbs = lengthen_octets(tbs, id.as_slice()).expect("AKI in TBS");
         });
     }
     match p.tamper.as_str() {
@@ -322,4 +338,23 @@ pub fn tlv_at(b: &[u8], pos: usize) -> (u8, usize, usize) {
         }
         (tag, 2 + n, len)
     }
+}
+
+
+/// the DER structure `der` with the LAST primitive value equal to `needle` made one octet longer (all enclosing lengths follow)
+pub fn lengthen_octets(der: &[u8], needle: &[u8]) -> Option<Vec<u8>> {
+    use crate::tlv::{self, Body, Tlv};
+    fn walk(t: &mut Tlv, needle: &[u8], hit: &mut Option<*mut Vec<u8>>) {
+        match &mut t.body {
+            Body::Prim(v) => { if v.as_slice() == needle { *hit = Some(v as *mut Vec<u8>); } }
+            Body::Cons(kids) | Body::Encap(_, kids) => for k in kids.iter_mut() { walk(k, needle, hit); },
+        }
+    }
+    let mut root = tlv::parse(der)?;
+    let mut hit = None;
+    walk(&mut root, needle, &mut hit);
+    let p = hit?;
+    // (the pointer stays valid: the tree is not restructured between the walk and this push)
+    unsafe { (*p).push(0x00); }
+    Some(root.encode())
 }
